@@ -45,8 +45,12 @@ RECURSIVE HasTermIte(_)
 HasTermIte(t) == (tt[t].k = "a" /\ tt[t].op = "ite" /\ tt[t].s # "Bool")
                  \/ \E i \in DOMAIN tt[t].a : HasTermIte(tt[t].a[i])
 IteNamed == \E n \in DOMAIN names : HasTermIte(names[n].t)
+RECURSIVE HasDistinct3(_)
+HasDistinct3(t) == (tt[t].k = "a" /\ tt[t].op = "distinct" /\ Len(tt[t].a) >= 3)
+                   \/ \E i \in DOMAIN tt[t].a : HasDistinct3(tt[t].a[i])
+Distinct3 == \E t \in Active : HasDistinct3(t)
 V(p, why) == [p |-> p, l |-> l, why |-> why, sid |-> run.sid, cfg |-> run.cfg, logic |-> run.logic,
-              kind |-> run.kind, afterReject |-> rejSeen, dup |-> run.dup, iteNamed |-> IteNamed, poppedUnsat |-> poppedUnsat, rejNamed |-> rejNamed]
+              kind |-> run.kind, afterReject |-> rejSeen, dup |-> run.dup, iteNamed |-> IteNamed, poppedUnsat |-> poppedUnsat, rejNamed |-> rejNamed, distinct3 |-> Distinct3]
 Report(vs) == \A v \in vs : PrintT("@@VIOL " \o ToJson(v))
 \* vs is a set of violation records
 Note(vs) == /\ Report(vs) /\ viol' = viol + Cardinality(vs)
